@@ -497,6 +497,11 @@ func (b *builder) buildC02() {
 	for i := 0; i < nc; i++ {
 		kind := subKinds[b.r.Intn(len(subKinds))]
 		c := b.subConn(kind, 30)
+		if c.Cfg.EOFFlag && b.r.Chance(1, 6) {
+			// a receiver that believed the input had ended: one early call carries the end-of-input
+			// flag; where the parser still answers "more bytes" the stream simply goes on
+			c.EarlyEOF = b.r.Range(1, 4)
+		}
 		s := c.Stream()
 		b.sc.Conns = append(b.sc.Conns, c)
 		plans = append(plans, connPlan{conn: i, cuts: b.cuts(s, b.pickSched(len(s))), end: b.pickEnd(), t0: int64(b.r.Intn(5000))})
@@ -706,11 +711,23 @@ func (b *builder) buildC12() {
 		uses = b.r.Range(2, 4)
 	}
 	resetBy := b.r.Intn(2)
+	// two objects used side by side whose caller arrays come from one common pool: what the init
+	// operation of one detaches may be attached to the other next
+	nobj := 1
+	if (kind == "msg" || kind == "headers" || kind == "contacts") && resetBy == sut.ByInit && cfg.HdrCap != -2 && b.r.Chance(1, 4) {
+		nobj = 2
+		b.sc.SharePool = true
+	}
 	var plans []connPlan
 	t := int64(0)
 	for i := 0; i < uses; i++ {
 		var c Conn
-		if kind == "msg" {
+		if kind == "msg" && b.r.Chance(1, 8) && !huge {
+			// this use parses a bare header block into the message object (another exported entry point)
+			c = Conn{Cfg: cfg, Clean: true}
+			c.Cfg.Frag = true
+			c.Raw = gen.HexBytes(b.g.SubText("headers", 0, 0))
+		} else if kind == "msg" {
 			c = Conn{Cfg: cfg}
 			o := gen.MsgOpts{Request: -1, CL: gen.CLAny, BodyMax: 100, WildNumbers: b.r.Chance(1, 5), MaxHdrs: b.r.PickInt(0, 3, 8)}
 			if huge {
@@ -724,8 +741,11 @@ func (b *builder) buildC12() {
 			c = b.subConn(kind, 30)
 			c.Cfg = cfg
 		}
-		c.Obj = 0
+		c.Obj = i % nobj
 		c.ResetBy = resetBy
+		if (kind == "msg" || kind == "headers") && b.r.Chance(1, 6) {
+			c.Poke = 1 + b.r.Intn(60)
+		}
 		if resetBy == sut.ByInit && i > 0 && cfg.HdrCap != -2 && b.r.Chance(1, 2) {
 			// the init operation may hand the object other arrays (or none) than it had before
 			c.Cfg.HdrCap = b.capKnob(24)
@@ -743,7 +763,9 @@ func (b *builder) buildC12() {
 		// uses are sequential in virtual time: one object, one user at a time
 		p := connPlan{conn: i, cuts: b.cuts(s, b.pickSched(len(s))), end: b.r.PickInt(endNone, endAbort, endAbort, endEOFEarly, endEOFWith, endEOFAfter, endEOFEarly), t0: t}
 		plans = append(plans, p)
-		t += 100000000
+		if i%nobj == nobj-1 {
+			t += 100000000 // (uses of different objects overlap in time, uses of one object never do)
+		}
 	}
 	b.schedule(plans)
 }
